@@ -301,7 +301,8 @@ def gen_cases(seed, tier, unsafe_share=True):
         rate = RATES[rng.choice(['0.1', '0.5', '1', '1', '0', 'nan', '-1', '2', '-0'])] if muts else RATES['0.1']
         ext, buf = int(rng.below(3) == 0), int(rng.below(3) == 0)
         if rng.below(2):
-            src = 'seed:%d' % rng.below(1 << 32)
+            # seeds over the whole u64 range (a seed is not an index: nothing may truncate it)
+            src = 'seed:%d' % (rng.below(1 << 32) if rng.below(3) else rng.choice([rng.below(1 << 64), (1 << 64) - 1 - rng.below(1000), (1 << 32) + rng.below(1000), 1 << 63]))
         else:
             src = 'bytes:' + (rand_bytes(rng, 4096 if mx >= 60 else 600).hex() or '-')
         # knobs the output must not depend on: with_buffer_size (read by nothing), the other spelling of the builder calls
